@@ -23,7 +23,7 @@ vars == <<c, out>>
 KValsQ == <<R(1,4), R(1,2), R(3,4)>>
 KValsT == <<R(1,4), R(1,3), R(1,2), R(2,3), R(3,4)>>
 Eps64  == R(1,64)
-Affines == {<<RI(3), RI(0)>>, <<RI(2), RI(-1)>>, <<R(1,2), RI(1)>>}
+Affines == {<<RI(3), RI(0)>>, <<RI(2), RI(-1)>>, <<R(1,2), RI(1)>>} \cup {<<One, RI(2)>>, <<One, R(-1, 2)>>}      \* pure shifts: a vector of length one that does not start at 0
 
 Degrees == 1..MaxHiP
 \* thirds put 12^p into denominators: kept to degrees <= 3 (32-bit TLC integers)
